@@ -1024,6 +1024,30 @@ int main(void) {
             free(buf);
             free(head);
             free(tail);
+        } else if (!strcmp(t[0], "pn") && n >= 6) {
+            /* pn <parser> <count> <open hex> <mid hex> <close hex> [options]: <count> copies of open, mid, <count> copies of
+             * close ("-" = empty) — nested documents far beyond any limit without megabytes of op text.  The options are
+             * looked up from token 3 on, exactly as for `p`. */
+            size_t count = hc_parse_size(t[2]), ol = 0, ml = 0, cl = 0;
+            uint8_t *op = hc_hex_decode(t[3], &ol), *mid = hc_hex_decode(t[4], &ml), *cls = hc_hex_decode(t[5], &cl);
+            HC_CHECK(count <= ((size_t)1 << 24) && ol <= 64 && cl <= 64 && ml <= 4096);
+            size_t total = count * ol + ml + count * cl;
+            uint8_t *buf = malloc(total ? total : 1);
+            HC_CHECK(buf);
+            for (size_t i = 0; i < count; ++i) {
+                memcpy(buf + i * ol, op, ol);
+            }
+            if (ml) {
+                memcpy(buf + count * ol, mid, ml);
+            }
+            for (size_t i = 0; i < count; ++i) {
+                memcpy(buf + count * ol + ml + i * cl, cls, cl);
+            }
+            s_run_input(t[1], buf, total, t, n);
+            free(buf);
+            free(op);
+            free(mid);
+            free(cls);
         } else if (!strcmp(t[0], "p") && n >= 3) {
             size_t len = 0;
             uint8_t *src = hc_hex_decode(t[2], &len);
